@@ -42,7 +42,8 @@ ASSUMES = [
     "exact domain (DESIGN 2.1 a): radiometry bounded so that every window sum of the measure is exact in float32; "
     "flips are compared only there and for odd windows (the bilateral window int(3*sigma_space+1) may be even: then "
     "the flip is not compared, as the property says); zncc and cbca-on-real-costs are compared on crops (same "
-    "operations in the same order) but not on flips (summation order changes)",
+    "operations in the same order) but not on flips (summation order changes); after an odd-window bilateral filter "
+    "(float weighted mean) flipped disparities are compared within 2^-12 and flags are not compared",
     "cbca integral images are running sums from the image side (float64 since the `fix:` commit of this property): "
     "compared strictly when every running sum is exact (integer / dyadic costs: sad, ssd, census); for zncc costs "
     "(arbitrary float32 values) a difference is classified cbca_running_sums_real_costs",
@@ -300,10 +301,26 @@ def check_case(ctx, model, case):
         ctx.traces += 1
         ctx.count("flips_compared")
         okf = True
+        bilateral = any(c.get("filter_method") == "bilateral" for _, c in pipeline)
         for name in ("ld", "lf", "rd", "rf"):
-            if name in whole and not same(whole[name], fl[name][::-1]):
+            if name not in whole:
+                continue
+            a, b = whole[name], fl[name][::-1]
+            if bilateral:
+                # real-valued kernel (bridging rule b): the weighted mean is a float sum whose order changes with the
+                # flip; disparities within 2^-12, flags not compared (a threshold decision may sit on the rounding)
+                if name in ("ld", "rd"):
+                    af, bf = a.astype(np.float64), b.astype(np.float64)
+                    bad = ~((np.isnan(af) & np.isnan(bf)) | (np.abs(af - bf) <= 2.0 ** -12))
+                    if bad.any():
+                        okf = False
+                        y, x = (int(v) for v in np.argwhere(bad)[0])
+                        report("vertical_flip", name, {"n": int(bad.sum()), "at": [y, x], "whole": float(af[y, x]),
+                                                       "other": float(bf[y, x])}, {"flip": True})
+                continue
+            if not same(a, b):
                 okf = False
-                report("vertical_flip", name, first_diff(whole[name], fl[name][::-1]), {"flip": True})
+                report("vertical_flip", name, first_diff(a, b), {"flip": True})
         ctx.case((tuple(steps), info["measure"], digest, "flip") if okf else None)
 
 
